@@ -136,9 +136,14 @@ impl<T: Qcow2IoOps> Qcow2Dev<T> {
                 let mut cbuf = Qcow2IoBuf::<u8>::new(self.info.cluster_size());
 
                 // copy & write
-                backing
+                let done = backing
                     .read_at(&mut cbuf, virt_off - (off_in_cls as u64))
                     .await?;
+                // a failed request inside a multi-cluster read of the backing
+                // image is reported as a short count
+                if done != cbuf.len() {
+                    return Err("short read from backing device for COW".into());
+                }
                 cbuf[off_in_cls..off_in_cls + buf.len()].copy_from_slice(buf);
                 self.call_write(host_off, &cbuf).await
             }
